@@ -1,50 +1,10 @@
-(* C02, part G: the full key-counting form of completeness is false (uses the witness of part F). *)
+(* C02, part G: the step statements of completeness bundled, and what happens between frames. *)
 From Coq Require Import ZArith List Bool Lia.
 From N2kV Require Import Base.ListAux Model.CanId Model.Sched Model.PgnClass Model.NodeDefs Model.NodeRxDefs Gen.GenTables Gen.GenConsts
   Spec.SendSpec Spec.RxSpec Proofs.RxProofsA Proofs.RxProofsE Proofs.RxProofsF.
 Import ListNotations.
 Local Open Scope Z_scope.
 
-Definition wit_pre : list rxframe :=
-  [mkf wit_x [0; 10; 0; 1; 2; 3; 4; 5]; mkf wit_k [0; 10; 20; 21; 22; 23; 24; 25]; mkf wit_x [1; 6; 7; 8; 9; 255; 255; 255]; mkf wit_k [32; 10; 40; 41; 42; 43; 44; 45]].
-Definition wit_f0 : rxframe := mkf wit_x [32; 10; 60; 61; 62; 63; 64; 65].
-Definition wit_c1 : rxframe := mkf wit_x [33; 66; 67; 68; 69; 255; 255; 255].
-Definition wit_k1 : rxframe := mkf wit_k [33; 46; 47; 48; 49; 255; 255; 255].
-
-Lemma wit_not_delivered : ~ In (run_msg wit_f0 [wit_c1]) (fp_dlv (snd (rx_loop gf_none 20 wit_node))).
-Proof. vm_compute. intros [X|[X|[]]]; discriminate. Qed.
-
-Lemma wit_q_eq : r_q wit_node = wit_pre ++ wit_f0 :: [wit_k1; wit_c1].
-Proof. reflexivity. Qed.
-Lemma wit_keys f : In f (r_q wit_node) -> In (key_of f) [(129029, 10, 255); (129540, 11, 255)].
-Proof.
-  rewrite wit_q_eq. unfold wit_pre. cbn [app]. intros Hin. repeat (destruct Hin as [<-|Hin]; [vm_compute; auto|]). destruct Hin.
-Qed.
-Lemma wit_fast_first : fast_first wit_node wit_f0.
-Proof. repeat split; vm_compute; reflexivity. Qed.
-Lemma wit_interleaved : interleaved wit_f0 [wit_c1] [wit_k1; wit_c1].
-Proof.
-  cbn [interleaved]. right. split; [intros (_ & A & _); vm_compute in A; discriminate|]. left. exists []. split; reflexivity.
-Qed.
-Lemma wit_seq : seq_ok (fbyte wit_f0 0) [wit_c1] wit_f0.
-Proof. cbn [seq_ok]. repeat split; vm_compute; congruence. Qed.
-
-Theorem rx_complete_false : rx_complete_false_stmt.
-Proof.
-  intros H. apply wit_not_delivered.
-  apply (H gf_none wit_node wit_pre wit_f0 [wit_k1; wit_c1] [wit_c1] [(129029, 10, 255); (129540, 11, 255)] 20%nat).
-  - intros r s; repeat split.
-  - split; [reflexivity|repeat constructor].
-  - exact wit_q_eq.
-  - vm_compute. discriminate.
-  - exact wit_keys.
-  - exact wit_fast_first.
-  - exact wit_interleaved.
-  - exact wit_seq.
-  - vm_compute. reflexivity.
-  - intros cs' Hl E. cbn [length] in Hl. destruct cs' as [|x cs']; cbn [length] in Hl; [|lia]. vm_compute. reflexivity.
-  - rewrite wit_q_eq. cbn. lia.
-Qed.
 Theorem rx_complete_partial : rx_complete_partial_stmt.
 Proof. split; [apply rx_complete_first | split; [apply rx_complete_cont | split; [apply rx_complete_other | apply rx_complete_poll]]]. Qed.
 
